@@ -54,6 +54,13 @@ def decide(v, prop, gate_ok, ob, corr_items, oracle_failures, extended_search=No
             continue
         mism.append((code, summ))
     broken = (not gate_ok) or bool(mism)
+    # anchored source functions that changed since the model was last reconciled with them (not a violation by itself)
+    try:
+        import anchors
+        drift = anchors.changed(C.REPO, prop)
+    except Exception as e:      # the detector must never decide a verdict
+        drift = ["<detector failed: %s>" % type(e).__name__]
+    v.cov["anchored_source_changed"] = drift
     if unknown:
         for f in unknown[:3]:
             v.violation(dict(f["replay"], property=prop, signature=f["signature"], what=f.get("text", "")))
@@ -74,6 +81,12 @@ def decide(v, prop, gate_ok, ob, corr_items, oracle_failures, extended_search=No
                                                 "meaning": "100*(op index+1)+field; None = Coq shard failed",
                                                 "n_mismatching_cases": len(mism)}
             v.violation(rep, no_input=True)
+    elif drift and extended_search:
+        # the code the model describes was edited: the model may be stale, so search harder before saying "holds"
+        more = extended_search()
+        for f in [f for f in more if C.match_known(prop, f["signature"]) is None][:3]:
+            v.violation(dict(f["replay"], property=prop, signature=f["signature"], what=f.get("text", "")))
+        v.cov["extended_search_after_source_change"] = len(more)
     v.cov["correspondence_mismatches"] = len(mism)
     v.cov["oracle_failures_unknown"] = len(unknown)
     v.cov["disagreements_checked"] = len(mism)
